@@ -152,6 +152,8 @@ structure CurveOps (F : Type) where
   ofJac : Jac F → Pt F
   onCurve : Pt F → Bool
   smulR : Pt F → Pt F
+  smul : Nat → Pt F → Pt F
+  randF : RS → Option F × RS
   mulF : F → F → F
   addF : F → F → F
   negF : F → F
@@ -161,12 +163,20 @@ structure CurveOps (F : Type) where
 def curveG1 : CurveOps Fq :=
   { rdF := nextFq, strF := fun x => [hexQ x], b := g1B, zero := 0, one := 1,
     add := Pt.add, dbl := Pt.dbl, neg := Pt.neg, ofJac := Pt.ofJac, onCurve := Pt.isOnCurve g1B,
-    smulR := Pt.smul r, mulF := (· * ·), addF := (· + ·), negF := (- ·), beqF := (· == ·), beqPt := (· == ·) }
+    smulR := Pt.smul r, mulF := (· * ·), addF := (· + ·), negF := (- ·), beqF := (· == ·), beqPt := (· == ·),
+    smul := Pt.smul,
+    randF := fun s => let (raw, s') := randFqRaw s; ((unmontQ raw).toOption, s') }
 
 def curveG2 : CurveOps Fq2 :=
   { rdF := nextFq2, strF := strQ2, b := g2B, zero := 0, one := 1,
     add := Pt.add, dbl := Pt.dbl, neg := Pt.neg, ofJac := Pt.ofJac, onCurve := Pt.isOnCurve g2B,
-    smulR := Pt.smul r, mulF := (· * ·), addF := (· + ·), negF := (- ·), beqF := (· == ·), beqPt := (· == ·) }
+    smulR := Pt.smul r, mulF := (· * ·), addF := (· + ·), negF := (- ·), beqF := (· == ·), beqPt := (· == ·),
+    smul := Pt.smul,
+    randF := fun s =>
+      let (r0, s) := randFqRaw s; let (r1, s) := randFqRaw s
+      (match (unmontQ r0).toOption, (unmontQ r1).toOption with
+       | some a, some b => some ⟨a, b⟩
+       | _, _ => none, s) }
 
 section
 variable {F : Type} (o : CurveOps F)
